@@ -55,6 +55,30 @@ I2OSP_WIDTH = {
 }
 
 
+def relocation(prog, table, scope_prefixes=('bbsplus::', 'utils::util::bbsplus_utils', 'utils::message::bbsplus_message')):
+    """{tabled function that no longer exists: the function that took its place}.  A tabled hashing helper that was renamed, moved or
+    turned into a method is recognised by what makes it one: it is the one function in scope, not tabled itself, that calls a hash function
+    directly - when there is exactly one such function for exactly one missing row (anything else stays a missing anchor)."""
+    missing = [k for k in table if k not in prog.bodies]
+    if len(missing) != 1:
+        return {}
+    cands = []
+    for p, b in sorted(prog.bodies.items()):
+        if b.from_expansion or b.kind == 'Closure' or not p.startswith(scope_prefixes) or p in table or '::tests::' in p:
+            continue
+        if any(_site_callee_key(t) for bi, t in b.calls()):
+            cands.append(p)
+    return {missing[0]: cands[0]} if len(cands) == 1 else {}
+
+
+def relocated(prog, table, scope_prefixes=('bbsplus::', 'utils::util::bbsplus_utils', 'utils::message::bbsplus_message')):
+    """the table with the row of a relocated function moved to where the function is now"""
+    rel = relocation(prog, BBS_TABLE if table is not None and set(table) <= set(BBS_TABLE) else table, scope_prefixes)
+    if not rel:
+        return table, rel
+    return {rel.get(k, k): v for k, v in table.items()}, rel
+
+
 def _site_callee_key(t):
     for suf in HASH_CALLEES:
         if callee_matches(t, suf):
@@ -80,6 +104,9 @@ def rule_hash_binding(ctx, table, scope_prefixes, cfg='prod-all', only_fns=None,
     inside a helper are lifted to R's parameters through the call chain.  A hash call site reachable from no tabled function is reported."""
     from flow import walk
     prog, eng = ctx.prog(cfg), ctx.eng(cfg)
+    table, rel = relocated(prog, table, scope_prefixes)
+    if only_fns:
+        only_fns = {rel.get(f, f) for f in only_fns}
     for fn in table:
         if only_fns and fn not in only_fns:
             continue
@@ -164,6 +191,8 @@ def rule_i2osp_width(ctx, widths=I2OSP_WIDTH, cfg='prod-all'):
     from flow import walk
     prog, eng = ctx.prog(cfg), ctx.eng(cfg)
     covered = set()
+    rel = relocation(prog, BBS_TABLE)
+    widths = {rel.get(k, k): v for k, v in widths.items()}
     for root, exp in sorted(widths.items()):
         if root not in prog.bodies:
             raise AnchorMissing(root)
@@ -228,6 +257,7 @@ def rule_whole_ingredients(ctx, table=None, cfg='prod-all', min_sites=8):
     from rf_consts import _trace_identity, _mut_borrowed
     prog, eng = ctx.prog(cfg), ctx.eng(cfg)
     table = table or BBS_TABLE
+    table, _rel = relocated(prog, table)
     n = 0
     seen = set()
     for root in sorted(table):
